@@ -186,11 +186,27 @@ def fmt_line(fid, d, style):
     return f"(1234567890.123456) can0 {fid:03X}##1{hx}"  # CAN-FD log format
 
 
-def run_impl_log(rx, frames, style_of):
+JUNK_LINES = ["", "   ", "\t", "# capture restarted", "can0 garbage"]
+
+
+def log_text(frames, style_of, junk=None, eol="\n"):
+    """candump text of the frames; junk: {position: line which is no frame (blank, white space, comment)} inserted
+    in front of the frame of that position"""
+    lines = []
+    for i, (fid, d) in enumerate(frames):
+        if junk and i in junk:
+            lines.append(junk[i])
+        lines.append(fmt_line(fid, d, style_of(i, d)))
+    if junk and len(frames) in junk:
+        lines.append(junk[len(frames)])
+    return eol.join(lines) + eol
+
+
+def run_impl_log(rx, frames, style_of, junk=None, eol="\n"):
     """feed the frames as a candump text log through read_telegrams"""
     import contextlib
     m = make_machine(rx)
-    text = "\n".join(fmt_line(fid, d, style_of(i, d)) for i, (fid, d) in enumerate(frames)) + "\n"
+    text = log_text(frames, style_of, junk, eol)
 
     async def go():
         out = []
@@ -206,3 +222,50 @@ def run_impl_log(rx, frames, style_of):
 
 def wire_case(rx, tx, psize, pval, frames, active):
     return [M_RUN, [list(rx), list(tx), psize, pval, [[fid, list(d)] for fid, d in frames], active]]
+
+
+# ---------------------------------------------------------------------------
+# the snoop tool end to end (passive mode, candump text on stdin)
+# ---------------------------------------------------------------------------
+_SNOOP_DB = {}
+
+
+def run_snoop(text, rx_arg, tx_arg, variant="somersault_lazy"):
+    """odxtools.cli.snoop.run on the shipped database with the log on stdin.
+    -> (list of ["req"|"resp", hex] for telegrams the database cannot decode, all stdout, error or None)"""
+    import argparse
+    import contextlib
+    import os
+    import re
+    import sys
+    import warnings
+    import common
+    import odxtools.cli.snoop as snoop
+    pdx = os.path.join(common.REPO, "examples", "somersault.pdx")
+    args = argparse.Namespace(pdx_file=pdx, variant=variant, protocol=None, rx=rx_arg, tx=tx_arg, channel=None, active=False)
+    out = io.StringIO()
+    old_stdin, old_load = sys.stdin, snoop._parser_utils.load_file
+    if "db" not in _SNOOP_DB:
+        _SNOOP_DB["db"] = old_load(args)  # loaded once per check run by the code under test
+    snoop._parser_utils.load_file = lambda a: _SNOOP_DB["db"]
+    sys.stdin = io.StringIO(text)
+    err = None
+    try:
+        with contextlib.redirect_stdout(out), contextlib.redirect_stderr(io.StringIO()), warnings.catch_warnings():
+            warnings.simplefilter("ignore")
+            snoop.last_request = None
+            snoop.run(args)
+    except SystemExit as e:
+        err = f"SystemExit({e.code})"
+    except Exception as e:  # noqa
+        err = f"{type(e).__name__}: {e}"
+    finally:
+        sys.stdin = old_stdin
+        snoop._parser_utils.load_file = old_load
+    res = []
+    for line in out.getvalue().splitlines():
+        if m := re.match(r"Tester: ([0-9a-f]*) ", line):
+            res.append(["req", m.group(1)])
+        elif m := re.search(r"unrecognized response of \d+ bytes length: 0x([0-9a-f]*)", line):
+            res.append(["resp", m.group(1)])
+    return res, out.getvalue(), err
